@@ -47,7 +47,7 @@ def cases(draw, tier="quick"):
             out.insert(draw(st.integers(0, len(out))), "nope")
         return out
     vars1, vars2 = sel(f1), sel(f2)
-    neg = draw(st.sampled_from([None] * 5 + ["levels", "removed", "split", "header_order", "moved"]))
+    neg = draw(st.sampled_from([None] * 5 + ["levels", "removed", "split", "header_order", "moved", "view_levels"]))
     nlev = spec["mesh"]["nlev"]
     code = st.lists(st.integers(0, 7), max_size=4)
     # task start / completion orders of the per-file workers of each level (empty = submission order)
@@ -86,6 +86,10 @@ def make_negative(case, s2):
         mesh["nlev"] -= 1
         mesh["rects"] = mesh["rects"][:mesh["nlev"] - 1]
         return s2, neg
+    if neg == "view_levels":
+        # the same plotfile pair, but the first reader is opened with a level limit below the finest level and the second
+        # without: the two readers expose different level counts
+        return (s2, neg) if mesh["nlev"] >= 2 else (s2, None)
     if neg == "moved":
         # the same boxes one level-0 cell further along x (index space and stated bounds), on a domain placed so far from
         # the origin that the stated bounds of the two meshes agree to 1e-5 relative: the meshes differ all the same
@@ -169,6 +173,8 @@ def check_case(case, ctx):
     sched = pools.set_schedule(case.get("sched"))
     try:
         how = case.get("how", "api")
+        if neg == "view_levels" and how == "cli":
+            how = "api"
         ctx.label("how:" + how)
         if how == "cli":
             import amr_kitchen.combine.cli as cli
@@ -179,8 +185,14 @@ def check_case(case, ctx):
         else:
             # api_limited: both readers opened with the same level limit (views of levels 0..L of deeper files)
             lim = min(case.get("limit", 0), p1.nlev - 1, p2.nlev - 1) if how == "api_limited" and neg is None else None
-            pck1 = qcall(PlotfileCooker, "in1", limit_level=lim)
-            pck2 = qcall(PlotfileCooker, "in2", limit_level=lim)
+            if neg == "view_levels":
+                lims = (case.get("limit", 0) % (p1.nlev - 1), None)
+                lims = lims[::-1] if case.get("limit", 0) % 2 else lims
+                pck1 = qcall(PlotfileCooker, "in1", limit_level=lims[0])
+                pck2 = qcall(PlotfileCooker, "in2", limit_level=lims[1])
+            else:
+                pck1 = qcall(PlotfileCooker, "in1", limit_level=lim)
+                pck2 = qcall(PlotfileCooker, "in2", limit_level=lim)
             if lim is not None and lim < p1.nlev - 1:
                 ctx.label("readers-limited-below-finest")
             if how == "api_swapped_types":      # a list for the first side, a string for the second
@@ -199,7 +211,7 @@ def check_case(case, ctx):
         d = snapshot_diff(s, snapshot(name))
         if d:
             v.append(f"input {name} was modified: {d[:3]}")
-    if neg in ("levels", "removed", "split", "moved"):
+    if neg in ("levels", "removed", "split", "moved", "view_levels"):
         if raised is None:
             v.append(f"inputs whose {neg} differ were combined instead of refused")
         if os.path.lexists("out"):
